@@ -145,6 +145,10 @@ def w6_declaration(p, name, how="class"):
     if how == "fn_kwargs":
         # the same spelling as the type of the variadic keyword arguments of a function
         return "\n".join(["@utype.parse", f"def {name}(z: int = 0, **extra: {p['bs_ann']}):", "    return [z, sorted(extra)]", ""])
+    if how == "fn_return":
+        # ... as the return annotation of a function (parsed after the parser's locked set-up)
+        empty = "{}" if p["bs_ann"].startswith("Dict") else "[]"
+        return "\n".join(["@utype.parse", f"def {name}(z: int = 0, *rest: {p['b_ann']}) -> {p['bs_ann']}:", f"    return {empty}", ""])
     if how == "cls_addition":
         return "\n".join([f"class {name}(Schema):", f"    __options__ = Options(addition={p['bs_ann']})", "    z: int = 0", ""])
     return "\n".join([
@@ -201,6 +205,8 @@ def run_op(mod, op, params):
         cls = getattr(mod, op["name"])
         if op.get("use") is None:
             return ["declared"]
+        if how == "fn_return":
+            return cls(1)
         if how != "class":
             extra = {"e1": _bs_value(params, [{"y": 3}])}
             return cls(z=1, **extra) if how == "fn_kwargs" else dict(cls(z=1, **extra))
@@ -324,7 +330,7 @@ def generate(rng, tier):
         if sc == "W6":
             # one thread declares (and maybe uses) new classes while the others make their first parses
             t = rng.randrange(nthreads)
-            plan["threads"][t] = [{"op": "declare", "name": "N%d_%d" % (t, i), "how": rng.choice(["class", "class", "fn_kwargs", "cls_addition"]),
+            plan["threads"][t] = [{"op": "declare", "name": "N%d_%d" % (t, i), "how": rng.choice(["class", "class", "fn_kwargs", "cls_addition", "fn_return", "fn_return"]),
                                    "use": rng.choice([None, {"z": 1, "b": {"y": 1}}, {"bs": [{"y": 2}]}])}
                                   for i in range(max(1, counts[t]))]
     elif sc == "W2":
